@@ -19,6 +19,7 @@ import (
 // longitude, and (where the property states one) keeps its result inside the
 // stated range for all inputs in the stated ranges.
 func (p *Program) ruleGeoUnits(c *Check, only map[string]bool, ranges bool) {
+	c.Assume("E14 units/ranges: real arithmetic (rounding is not modelled); inputs lie in the ranges the property states (latitude [-90,90], longitude [-180,180], distance [0, half circumference)); a constant between 6.3e6 and 6.4e6 is the Earth's radius in metres per radian; the literals 180/360/90/270 may be read as degrees")
 	var names []string
 	for n := range geoSpecs {
 		if only == nil || only[n] {
@@ -141,6 +142,7 @@ func (p *Program) ruleGeoCallers(c *Check) {
 // ruleGeoAlgebra: identities between the spherical primitives, decided on
 // normal forms of their formulas.
 func (p *Program) ruleGeoAlgebra(c *Check) {
+	c.Assume("E14 algebra: identities are decided between normal forms in real arithmetic with the rewrite rules listed in e14_cas.go, whose domain conditions (|x|<=1 for sin(asin x), |t|<=pi/2 for asin(sin t), x>=0 for sqrt(x^2)) hold for distances up to half the circumference; numeric conversions (int32, float64) are read as the identity")
 	get := func(name string) *types.Func { return p.Func("geo", name) }
 	need := func(names ...string) bool {
 		for _, n := range names {
